@@ -236,6 +236,14 @@ def make(case):
     return spec, np.asarray(xs, dtype=float), active, side
 
 
+def least_violation(rec):
+    """Smallest true violation over all evaluated points of a run."""
+    from vlib import oracles
+    vals = [r["v"] for r in oracles.eval_table(rec)
+            if r["ok"] and r["v"] is not None and not math.isnan(r["v"])]
+    return min(vals) if vals else math.inf
+
+
 def run_case(case):
     spec, xs, active, side = make(case)
     fam = case["fam"]
@@ -273,7 +281,7 @@ def run_case(case):
         elif res.status in (5, 6) and dev <= TAU[fam]:
             mech = "budget_exhausted_at_accurate_point"
         elif (res.status == 0 and dev <= TAU[fam] and zero_normal["n"] > 0
-              and tv is not None and tol < tv <= 1e-6):
+              and tol < least_violation(rec) <= 1e-6):
             # accurate point, but a linear residual of 1e-8..1e-6 was never
             # removed: the normal solver returned the zero step from a
             # (slightly) infeasible centre
